@@ -19,9 +19,11 @@ META = dict(
           "arguments/coefficients (z3 QF_NRA). Float rounding is not decided. "
           "Splines: the knot-interval search search_ of gcvspl.cpp is cut each run and proved (CBMC function contract + induction at its goto-loop head; checks/part_c41_spline.py) to return, "
           "for any knot array of 1 <= n < 2^30 entries, any non-NaN t and any initial guess, L = 0 if t < X(1), L = n if t >= X(n), else 1 <= L < n with X(L) <= t < X(L+1), all indices in bounds; "
+          "the index/loop skeleton of SimTK_splder_ (number of differencing sweeps == derivative order, each coefficient differenced exactly once over the right knot pair, all array indices in bounds) "
+          "is a BOUNDED stand-in (half order m <= 3, n <= 6 knots, loops unwound with unwinding assertions; float right-hand sides abstracted) and is not counted as proved; "
           "the floating-point content of SimTK_splder_/SimTK_gcvspl_ is not decided (native replay only)."),
     note="Assumes real arithmetic; trusts z3/cvc5, transliterator rules (logged), symlib shim incl. nested dual numbers and the (c,s) abstraction of sin/cos.",
-    technique="symbolic execution of transliterated real code on nested dual numbers over the reals + SMT (z3 QF_NRA)",
+    technique="symbolic execution of transliterated real code on nested dual numbers over the reals + SMT (z3 QF_NRA); CBMC function contract + loop induction for the spline knot search; bounded CBMC stand-in for the spline derivative index skeleton",
     design_ref="4 C41")
 
 SCALAR_H = os.path.join(REPO, "SimTKcommon/Scalar/include/SimTKcommon/Scalar.h")
